@@ -19,6 +19,7 @@ EXPLANATION = (
     ' R03.5 also: iter_count widens both factors to 64 bits before multiplying. R03.6 every reported run starts from an empty sample store: the BenchContext wrapped by Bencher::new and read by compute_stats is built by the single constructor (SampleCollection::default(), did_run = false) in the same loop iteration as the run, or emptied by a reset call before each run. R03.7 test mode is what the entry point asked for (the action the SharedContext is built with). R03.8 BenchMode::is_test/is_tune/is_collect are true for exactly their variant and sample_size() is 1 for Test and the variant\'s own payload otherwise (per-variant return value from the discriminant tests on every path). R03.9 (= R14.7) the action the command line asks for is the documented function of --list/--test/--bench (truth table over the flag atoms on every path of config_with_args that stores self.action).')
 EXPLANATION += (' R03.10 (= R15.1) the options the loop obeys are merged field by field: no time option can leak into another field of BenchOptions::overwrite.')
 EXPLANATION += (' R03.11 (= R15.7) attribute options are emitted as written (threads = false is Some([1])).')
+EXPLANATION += (' R03.12 the scalar thread-count conversion returns a constant list only for a tested value and [self] otherwise.')
 NOT_DECIDED = ["the closed form s*T*ceil(n/T) itself (follows from R03.3 + R04.1 by induction; not mechanised)",
                "call counts under interleavings (C06)"]
 
